@@ -1,6 +1,6 @@
 """C08 — transfer outcome does not depend on where reception pre-empts the job thread."""
 import collections, random
-from .. import common as C, gen21, net21, preempt
+from .. import common as C, gen21, gen22, net21, preempt
 from ..corr21 import first_divergence
 from ..gen21 import rand_payload
 
@@ -12,7 +12,6 @@ ASSUMPTIONS = ["model granularity: the receive thread runs between two session l
                "240-255; j1939_22 since fix D20), which is what makes the atomic step faithful; the line-level pre-emption inside a "
                "session's handling, the ECU timer loop and the sleep/wake-up race are exercised on the real code by the oracle only",
                "the receive thread's handlers are atomic (the background thread is the one that is held, as the property states)",
-               "J1939-22: oracle only (no Pre22 model)",
                "CPython executes a source line's dict operations atomically with respect to the tracer-driven pre-emption (GIL granularity is "
                "finer than a line for a few statements; not modelled)"]
 
@@ -20,12 +19,12 @@ ASSUMPTIONS = ["model granularity: the receive thread runs between two session l
 def correspondence(ctx):
     """recorded scripts in which the REAL pass is pre-empted (line tracer) before its K-th session lookup"""
     rng = random.Random(ctx.seed * 1000003 + 80000)
-    n = ctx.n(60, 3000)
+    n = ctx.n(80, 4000)
     dis, traces, evals, distinct, hist = [], 0, 0, set(), {}
     sample = None
     for _ in range(n):
         sub = random.Random(rng.getrandbits(48))
-        rec = gen21.preempt_script(sub, C.REPO)
+        rec = gen21.preempt_script(sub, C.REPO) if traces % 2 == 0 else gen22.preempt_script(sub, C.REPO)
         lean = ctx.driver.run_lines(rec.lines)
         traces += 1
         evals += len(rec.lines)
